@@ -331,6 +331,9 @@ def work(args):
 def run_case(case):
     import multiprocessing
     common.import_repo()
+    if 'stack' in case:
+        from .. import svc_stack
+        return svc_stack.run_case(case, 'c20:')
     if not _SOLO:
         ctx = multiprocessing.get_context('fork')
         sp = SCENARIOS[case['scenario']]
@@ -390,6 +393,11 @@ def main(tier, seed):
                 'each client observes and what the server observes about it equal the same conversation run alone',
         'samples': [{'scenario': k, **v} for k, v in info.items()][:4],
     })
+    from .. import svc_stack
+    svc_stack.extend(rep, ID, tier, seed, 'vp.checks.c20')
+    rep.coverage['part2_note'] = ('absolute-oracle scenarios (a differential oracle cannot see what every schedule shares): n clients storing one '
+                                  'SOP instance UID into a directory-backed StorageAE at the same time, with scheduling points at the file-system '
+                                  'look-up and create; repeated association requests from one configuration; entity re-purposed while a request is in flight')
     rep.assumptions = ['scheduling points at synchronisation operations; atomic segments in between (GIL granularity)',
                        'N <= 3 associations; the ThreadingTCPServer accept loop and kernel sockets are not executed']
     return rep
